@@ -332,6 +332,48 @@ pub fn run(tier: Tier, seed: u64) -> i32 {
         }
     });
 
+    // A2. twin calls: the component called twice on *different* input
+    // witnesses. In the default instance (what gets compiled) all scalar
+    // inputs hold 0 and all points the identity, so the two calls see equal
+    // values; in a proved instance they do not. Anything a composer remembers
+    // by value (a memoised decomposition, a validated-point cache) makes the
+    // compiled shape differ from the proved one.
+    let twins: Vec<(String, Program)> = comps
+        .iter()
+        .enumerate()
+        .filter(|(i, (n, p))| p.ops.len() == 8 && (!n.contains('<') || i % 7 == 0))
+        .map(|(_, (n, p))| {
+            let mut ops = p.ops.clone();
+            let second = ops[7].map_regs(&|r| if (2..=5).contains(&r) { 2 + (r - 2 + 1) % 4 } else { r }, &|q| if (1..=3).contains(&q) { 1 + q % 3 } else { q });
+            ops.push(second);
+            (format!("twin:{n}"), Program { ops, n_scalar_inputs: 4, n_point_inputs: 3, n_digit_inputs: 0 })
+        })
+        .collect();
+    par_cases(twins.len() as u64, threads(), |ci| {
+        let (name, prog) = &twins[ci as usize];
+        let prog = Arc::new(prog.clone());
+        let base = common::build_instance(&prog, &Inputs::default_for(&prog), &[]).map(|(s, _)| sat::canonical(&s));
+        if let Err(f) = &base {
+            if let Fail::Panic(p) = f {
+                ev.violation(&format!("C07:panic-on-default-inputs:{}:{}", name, panic_site(p)), json!({"component": name, "panic": p}));
+            }
+            return;
+        }
+        let mut rng = case_rng(seed, "C07.A2", ci);
+        for vs in 0..3u64 {
+            let mut inp = Inputs::default_for(&prog);
+            for s in inp.scalars.iter_mut() {
+                // small distinct values (pass most range / canonicity guards) or pool values
+                *s = if vs == 0 { BlsScalar::from(1 + rng.next_u64() % 200) } else { pool_scalar(&mut rng) };
+            }
+            for p in inp.points.iter_mut() {
+                *p = GENERATOR_EXTENDED * JubJubScalar::from(1 + rng.next_u64());
+            }
+            ev.bucket("twin_calls");
+            check_pair(&ev, name, &prog, &inp, json!({"twin": true, "scalars": crate::util::hxs(&inp.scalars)}), &base);
+        }
+    });
+
     // B. random multi-op programs re-run with foreign inputs
     let n_seq = tier.pick(150u64, 1500u64);
     par_cases(n_seq, threads(), |ci| {
@@ -370,5 +412,6 @@ pub fn run(tier: Tier, seed: u64) -> i32 {
     ev.floor("Err results", ev.bucket_get("built_err"), 10);
     ev.floor("Ok results", ev.bucket_get("built_ok"), 500);
     ev.floor("point classes", ev.set_len("point_classes") as u64, 10);
+    ev.floor("twin calls (same component on two different input witnesses)", ev.bucket_get("twin_calls"), 150);
     ev.finish()
 }
